@@ -91,6 +91,8 @@ def c04(tier, seed):
                       seed=seed % 7, timeout_ms=60000, unwind=64, max_paths=8000 if q else 100000))
         if not q:
             jobs.append(J(G, "VerifE01Check", model=m, maxcands=12, ctx=3, seed=(seed + 2) % 7, timeout_ms=60000, unwind=64, max_paths=100000))
+    # the contextual tuples are also stored (a contextual tuple may repeat a stored one): same answer
+    jobs.append(J(G, "VerifE01Check", model="userset", maxcands=10, ctx=3, ctxdup=1, invalid=0, subjects="min", timeout_ms=60000, unwind=64, max_paths=8000 if q else 100000))
     # object types one of whose names is a prefix of the other (`team`, `team2`: ordering by type and ordering by the
     # object string disagree); the six tuples of both types travel as contextual tuples. Requests 11 / 19 are
     # team2:1#member@user:1 and team:1#member@user:1, request 3 (thorough) is doc:1#viewer@user:1
